@@ -68,8 +68,9 @@ pub trait NodeClient: Sized + Clone {
             // A-node: a node that answers "no such kernel" is believed
             r matches Ok(None) ==> !kernel_on_chain(*excess);
     // chain tip (height, hash) as reported by the node — any value, may fail
+    // (A-node-height: a height below 2^64 - 1; the wallet computes height + 1)
     fn get_chain_tip(&self) -> (r: Result<(u64, String), Error>)
-        ensures r matches Err(e) ==> store_err(e);
+        ensures r matches Err(e) ==> store_err(e), r matches Ok(t) ==> t.0 < u64::MAX;
 }
 pub trait ProofBuild { }
 
